@@ -257,8 +257,11 @@ def fit_env(repo) -> Dict[str, Any]:
             continue
         names.add(n)
         todo += [astq.callee_name(c) for c in ast.walk(m.funcs[n].node) if isinstance(c, ast.Call)]
+    # plus the new helpers, which module-level tables may mention without any function calling them by name - in one environment,
+    # so that every interpreted function sees every other
+    ref = repo.reference.get(M) if hasattr(repo, "reference") else None
+    names |= {q for q in m.funcs if "." not in q and ref is not None and q not in ref.funcs and q != "fit_to_pdb"}
     env.update(module_callables(repo, M, names=names, outer=env))
-    env.update({k: v for k, v in module_callables(repo, M, outer=env).items() if k not in env})  # new helpers that only module-level tables mention
     return env
 
 
